@@ -438,6 +438,29 @@ def main(tier):
     dtasks.append((3, True, True, False))
     results += pmap(run_diffpath, dtasks)
     results += pmap(run_difforder, list(itertools.permutations(range(3))))
+    # the repository root, the directory walk and the file reads (FileSystemImpl on environment stubs)
+    from . import fsroot
+    starts = [b'/', b'/r', b'/r/a', b'/r/a/b'] + ([b'/r/a/b/c', b'/r/.git/x', b'/a b/c.d'] if tier == 'thorough' else [])
+    fs_results = pmap(fsroot.run_root, [(s,) for s in starts])
+    walks = [(b'/r', [b'a.py', b'b', b'b/b.py']), (b'/', [b'a.py', b'b/b.py']), (b'/r/r', [b'r/a.py', b'rr/r/b.py'])]
+    if tier == 'thorough':
+        walks += [(b'/r', [b'a', b'a/b', b'a/b/c', b'a/b/c/d.py']), (b'/a b', [b'c d/e f.py', b'.x', b'b/b/b'])]
+    fs_results += pmap(fsroot.run_walkfs, walks)
+    fs_seen = set()
+    fs_violations = []
+    for r in fs_results:
+        for v in r.get('violations', []):
+            if v['role'] in fs_seen:
+                continue
+            fs_seen.add(v['role'])
+            if v['fsroot'] == 'root':
+                fsroot.confirm_root(binary, PROP, v, 0)
+            else:
+                fsroot.confirm_walk(binary, PROP, v, 0)
+            fs_violations.append(v)
+        r2 = dict(r)
+        r2['violations'] = []
+        agg.add(r2)
     for r in results:
         agg.add(r)
     from . import mainwire
@@ -459,7 +482,7 @@ def main(tier):
                 got = v
                 break
         final.append(got or vs[0])
-    agg.violations = final
+    agg.violations = final + fs_violations
     samples = [s for r in results for s in r.get('samples', [])]
     rnd.shuffle(samples)
     done = 0
@@ -486,12 +509,13 @@ def main(tier):
     bounds['path_alphabet'] = ''.join(map(chr, PATH_ALPHABET))
     return finish(
         agg, bounds,
-        assumptions=['globset matching, ignore::Walk (hidden / git-ignored files), repository-root discovery and the current directory are stubs: allow(path), ignore(path), walked(path) are arbitrary booleans per path',
+        assumptions=['globset matching, ignore::Walk (hidden / git-ignored files) and the current directory are stubs: allow(path), ignore(path), walked(path) are arbitrary booleans per path',
+                     'repository_root_path and FileSystemImpl::walk / read_to_string run on environment stubs: Path::is_dir is a Z3 boolean per <ancestor>/.git and /.hg, ignore::Walk yields entries whose kind (file, directory, error) Z3 chooses, fs::read_to_string records its argument; start directories of depth 0-3 (quick) / 0-4 (thorough)',
                      'unidiff::PatchSet::from_str is a stub returning one patched file with an arbitrary target path',
                      'targets without the b/ prefix whose own first component is `b` are outside the claim'],
         stubs=['FileSystem::walk', 'FileSystem::read_to_string', 'PathChecker::should_allow', 'PathChecker::should_ignore',
-               'BlocksParser::parse', 'PatchSet::from_str'],
-        must_cover=['main', 'scope-paths', 'diffpath', 'removed', 'diff-orders'],
+               'BlocksParser::parse', 'PatchSet::from_str', 'Path::is_dir', 'ignore::Walk::new', 'DirEntry::path', 'std::fs::read_to_string'],
+        must_cover=['main', 'scope-paths', 'diffpath', 'removed', 'diff-orders', 'root', 'walk'],
         explanation='per path: for every file, PC∧in_scope∧not read, PC∧¬in_scope∧read, read twice; diff key vs target minus one b/')
 
 
